@@ -53,10 +53,10 @@ def sexpTokens (s : String) : List String :=
   let rec go : List Char → List Char → List String → List String
     | [], cur, acc => (if cur.isEmpty then acc else String.ofList cur.reverse :: acc).reverse
     | c :: cs, cur, acc =>
-      let flush := if cur.isEmpty then acc else String.ofList cur.reverse :: acc
-      if c = '(' then go cs [] ("(" :: flush)
-      else if c = ')' then go cs [] (")" :: flush)
-      else if c = ' ' ∨ c = '\n' ∨ c = '\r' ∨ c = '\t' then go cs [] flush
+      let flush := fun (_ : Unit) => if cur.isEmpty then acc else String.ofList cur.reverse :: acc
+      if c = '(' then go cs [] ("(" :: flush ())
+      else if c = ')' then go cs [] (")" :: flush ())
+      else if c = ' ' ∨ c = '\n' ∨ c = '\r' ∨ c = '\t' then go cs [] (flush ())
       else go cs (c :: cur) acc
   go s.toList [] []
 
